@@ -12,7 +12,7 @@
      shard     lengths of the first segment handled by this TLC process
      maxops    maximal number of CIGAR operations    (thorough 3, quick 2)
      unnamed   lengths up to which E lines are also enumerated without a name
-     kinds     which case kinds this process enumerates ("L","C","E","P","O","X","H")
+     kinds     which case kinds this process enumerates ("L","C","E","P","O","X","H","N","T")
      rot       rotations of the CIGAR choice used by path documents            *)
 EXTENDS Convert, Json, IOUtils, TLC
 
@@ -36,6 +36,7 @@ RECURSIVE CigText(_)
 CigText(cg) == IF cg = <<>> THEN "" ELSE ToString(Head(cg).n) \o Head(cg).c \o CigText(Tail(cg))
 OvText(cg, star) == IF star THEN "*" ELSE CigText(cg)
 SeqOf(n) == CASE n = 3 -> "ACG" [] n = 4 -> "ACGT" [] n = 5 -> "ACGTA" [] n = 6 -> "ACGTAC" [] OTHER -> "*"
+DocText(ls) == Join([i \in DOMAIN ls |-> Join(ls[i], "|")], ";")
 PosText(p, d) == ToString(p) \o (IF d = 1 THEN "$" ELSE "")
 
 \* first segment carries a sequence, the second only a length
@@ -239,6 +240,201 @@ H2Cases(dummy) ==
         t[6] # "" => t[4]}}
 
 -----------------------------------------------------------------------------
+(* nested and multi-line ordered groups (kind "N", GFA2).  A chain A-B-C-D
+   (orientation vector v, edges l1..l3 in the stored forms of Stored2).  Group
+   `inner` walks the segments i..j, written on one to three lines (cut at any
+   item, also next to an edge item); group `outer` walks the whole chain with
+   `inner` as one item, forwards (`inner+`) or backwards (`inner-`); optionally
+   `top` = `outer+` / `outer-`.  The `outer` line arrives before, between or
+   after the lines of `inner`; the O lines before or after the E lines; edges
+   listed or implied.                                                         *)
+NVecs == << <<"+", "+", "+", "+">>, <<"+", "-", "-", "+">>, <<"-", "-", "+", "+">> >>
+NCombos == IF MaxOps >= 3 THEN {<<vi, fv>> : vi \in 1..3, fv \in {"d", "c", "a"}}
+           ELSE {<<1, "d">>, <<2, "a">>, <<1, "c">>}
+NChain(vi) == LET v == NVecs[vi] IN
+  [w |-> W(<<<<"A", v[1]>>, <<"B", v[2]>>, <<"C", v[3]>>, <<"D", v[4]>>>>), c |-> FALSE]
+It(id, o) == [id |-> id, o |-> o]
+\* items of the walk over the segments i..j of the chain
+NItems(sh, r, fv, i, j, expl) ==
+  IF expl THEN [k \in 1..(2 * (j - i) + 1) |->
+                  IF k % 2 = 1 THEN It(sh.w[i + (k - 1) \div 2].id, sh.w[i + (k - 1) \div 2].o)
+                  ELSE It("l" \o ToString(i + k \div 2 - 1), Stored2(sh, i + k \div 2 - 1, r, fv).s)]
+  ELSE [k \in 1..(j - i + 1) |-> It(sh.w[i + k - 1].id, sh.w[i + k - 1].o)]
+NPos(m, expl) == IF expl THEN 2 * m - 1 ELSE m
+NOuterFwd(sh, r, fv, i, j, expl) ==
+  LET full == NItems(sh, r, fv, 1, 4, expl) IN
+  SubSeq(full, 1, NPos(i, expl) - 1) \o <<It("inner", "+")>> \o SubSeq(full, NPos(j, expl) + 1, Len(full))
+NOuter(sh, r, fv, i, j, expl, rev) ==
+  IF rev THEN RevInv(NOuterFwd(sh, r, fv, i, j, expl)) ELSE NOuterFwd(sh, r, fv, i, j, expl)
+NCuts(n) == {<<>>} \cup {<<k>> : k \in {1, 2} \cap (1..(n - 1))} \cup (IF n >= 4 THEN {<<1, 3>>} ELSE {})
+\* the pieces of `items` cut after the positions in cuts
+NPieces(items, cuts) ==
+  LET b == <<0>> \o cuts \o <<Len(items)>> IN
+  [k \in 1..(Len(cuts) + 1) |-> SubSeq(items, b[k] + 1, b[k + 1])]
+ItemsText(items) == Join([k \in DOMAIN items |-> items[k].id \o items[k].o], " ")
+NOLine(name, items, tag) == <<"O", name, ItemsText(items)>> \o (IF tag THEN <<"zz:i:1">> ELSE <<>>)
+NSegLines == <<S2Line("A", 4, TRUE), S2Line("B", 5, FALSE), S2Line("C", 6, FALSE), S2Line("D", 6, FALSE)>>
+NDoc(vi, fv, r, i, j, expl, rev, cuts, p, top, ofirst) ==
+  LET sh == NChain(vi)
+      pieces == NPieces(NItems(sh, r, fv, i, j, expl), cuts)
+      m == Len(pieces)
+      tl == IF p % 2 = 0 THEN 1 ELSE m                       \* the inner line which carries the tag
+      inl == [k \in 1..m |-> NOLine("inner", pieces[k], k = tl)]
+      outl == <<NOLine("outer", NOuter(sh, r, fv, i, j, expl, rev), FALSE)>>
+      ols0 == SubSeq(inl, 1, p) \o outl \o SubSeq(inl, p + 1, m)
+      ols == CASE top = "+" -> <<NOLine("top", <<It("outer", "+")>>, FALSE)>> \o ols0
+               [] top = "-" -> ols0 \o <<NOLine("top", <<It("outer", "-")>>, FALSE)>>
+               [] OTHER -> ols0
+      els == [k \in 1..3 |-> ELine(Stored2(sh, k, r, fv).g, "l" \o ToString(k))]
+  IN NSegLines \o (IF ofirst THEN ols \o els ELSE els \o ols)
+NRanges == {<<2, 4>>, <<2, 3>>, <<1, 4>>, <<1, 2>>, <<3, 3>>}
+NCases(dummy) ==
+  {[k |-> "N", ver |-> "gfa2", lf |-> 0, lt |-> 0,
+    x |-> [vi |-> t[1][1], fv |-> t[1][2], r |-> t[2], i |-> t[3][1], j |-> t[3][2], expl |-> t[4], rev |-> t[5],
+           cuts |-> t[6], top |-> t[8]],
+    lines |-> NDoc(t[1][1], t[1][2], t[2], t[3][1], t[3][2], t[4], t[5], t[6], t[7], t[8], t[9])] :
+   t \in {u \in NCombos \X Rots \X NRanges \X BOOLEAN \X BOOLEAN \X NCuts(7) \X (0..3) \X {"", "+", "-"} \X BOOLEAN :
+          LET n == IF u[4] THEN 2 * (u[3][2] - u[3][1]) + 1 ELSE u[3][2] - u[3][1] + 1 IN
+          /\ u[6] \in NCuts(n)
+          /\ u[7] <= Len(u[6]) + 1}}
+
+-----------------------------------------------------------------------------
+(* histories (kind "T"): one Gfa object is converted, edited, converted again
+   (and once more).  A case is the document as it stands at each stage with the
+   edit commands between them,  doc0 @ cmd1 @ doc1 @ cmd2 @ doc2 ; the document
+   after an edit is written here (what the edit means), the harness issues the
+   command on the live object and every stage is judged like any other
+   document.  Edits: length of a segment (LN tag or sequence; longer, shorter,
+   down to where `$` appears), position / overlap of a containment, a tag,
+   renaming a segment, an edge or a path taken out and added again in another
+   form.  GFA2: segment length, alignment, tag, renaming, E line re-added.   *)
+M(n) == [n |-> n, c |-> "M"]
+Iop(n) == [n |-> n, c |-> "I"]
+Dop(n) == [n |-> n, c |-> "D"]
+TLenEdits == {"A3", "A6", "B3", "B6"}
+TEdits == TLenEdits \cup {"pos", "ov", "tag", "ren", "readd", "readdP"}
+THists == {<<e>> : e \in TEdits}
+          \cup {h \in {<<a, b>> : a \in TLenEdits \cup {"ren", "readd"}, b \in TLenEdits} : h[1] # h[2]}
+TName(p, n) == IF n = "A" THEN p.nA ELSE n
+TLenOf(p, n) == IF n = "A" THEN p.la ELSE p.lb
+TUsesB(p) == "B" \in {p.x.from, p.x.to}
+TSegs(p) ==
+  << IF p.seqA THEN <<"S", p.nA, SeqOf(p.la)>> ELSE <<"S", p.nA, "*", "LN:i:" \o ToString(p.la)>> >>
+  \o (IF TUsesB(p) THEN << <<"S", "B", "*", "LN:i:" \o ToString(p.lb)>> >> ELSE <<>>)
+TX(p) == [p.x EXCEPT !.from = TName(p, @), !.to = TName(p, @)]
+TEdgeLine(p) == G1Line(TX(p), p.id) \o (IF p.tag THEN <<"xx:i:5">> ELSE <<>>)
+TPathLine(p) == <<"P", "p", TName(p, p.x.from) \o p.x.fo \o "," \o TName(p, p.x.to) \o p.x.too,
+                  IF p.path = "g" THEN CigText(p.x.ov) ELSE "*">>
+TDoc(p) == TSegs(p) \o <<TEdgeLine(p)>> \o (IF p.path # "" THEN <<TPathLine(p)>> ELSE <<>>)
+TFits(p) == /\ Gfa1Fits(p.x, TLenOf(p, p.x.from), TLenOf(p, p.x.to))
+            /\ (p.x.t = "C" => QueryLen(p.x.ov) = TLenOf(p, p.x.to))
+TApply(p, e) ==
+  CASE e \in {"A3", "A6"} ->
+         LET n == IF e = "A3" THEN 3 ELSE 6 IN
+         [ok |-> n # p.la, p |-> [p EXCEPT !.la = n],
+          cmd |-> IF p.seqA THEN <<"seq", p.nA, SeqOf(n)>> ELSE <<"LN", p.nA, ToString(n)>>]
+    [] e \in {"B3", "B6"} ->
+         LET n == IF e = "B3" THEN 3 ELSE 6 IN
+         [ok |-> n # p.lb /\ TUsesB(p), p |-> [p EXCEPT !.lb = n], cmd |-> <<"LN", "B", ToString(n)>>]
+    [] e = "pos" ->
+         LET n == IF p.x.pos = 0 THEN 1 ELSE 0 IN
+         [ok |-> p.x.t = "C" /\ p.id # "", p |-> [p EXCEPT !.x.pos = n], cmd |-> <<"pos", p.id, ToString(n)>>]
+    [] e = "ov" ->
+         [ok |-> p.x.t = "C" /\ p.id # "" /\ Reverse(p.x.ov) # p.x.ov, p |-> [p EXCEPT !.x.ov = Reverse(@)],
+          cmd |-> <<"ov", p.id, CigText(Reverse(p.x.ov))>>]
+    [] e = "tag" -> [ok |-> ~p.tag /\ p.id # "", p |-> [p EXCEPT !.tag = TRUE], cmd |-> <<"tag", p.id, "xx:i:5">>]
+    [] e = "ren" -> [ok |-> p.nA = "A", p |-> [p EXCEPT !.nA = "Z"], cmd |-> <<"rename", "A", "Z">>]
+    [] e = "readd" ->
+         LET q == [p EXCEPT !.x.fo = Inv(@), !.x.ov = Reverse(@)] IN
+         [ok |-> p.id # "" /\ p.path = "", p |-> q, cmd |-> <<"readd", p.id, Join(TEdgeLine(q), "|")>>]
+    [] OTHER ->
+         LET q == [p EXCEPT !.path = IF @ = "g" THEN "s" ELSE "g"] IN
+         [ok |-> p.path # "", p |-> q, cmd |-> <<"readd", "p", Join(TPathLine(q), "|")>>]
+RECURSIVE THistOK(_, _)
+THistOK(p, h) == TFits(p) /\ (h = <<>> \/ (TApply(p, Head(h)).ok /\ THistOK(TApply(p, Head(h)).p, Tail(h))))
+RECURSIVE THistText(_, _)
+THistText(p, h) ==
+  IF h = <<>> THEN DocText(TDoc(p))
+  ELSE LET r == TApply(p, Head(h)) IN
+       DocText(TDoc(p)) \o "@" \o Join(r.cmd, "~") \o "@" \o THistText(r.p, Tail(h))
+RECURSIVE TStages(_, _)
+TStages(p, h) == IF h = <<>> THEN <<p>> ELSE <<p>> \o TStages(TApply(p, Head(h)).p, Tail(h))
+TP(x, seqA, id, path) == [la |-> 5, lb |-> 4, seqA |-> seqA, nA |-> "A", x |-> x, id |-> id, tag |-> FALSE, path |-> path]
+TLCig(k) == IF k % 2 = 0 THEN <<M(2), Iop(1)>> ELSE <<M(1), Dop(1), M(1)>>
+TCOv(k) == IF k % 2 = 0 THEN <<M(1), Iop(1), M(2)>> ELSE <<M(2), Dop(1), M(2)>>      \* both span a contained B of length 4
+TOriIdx(fo, to) == (IF fo = "-" THEN 1 ELSE 0) + (IF to = "-" THEN 2 ELSE 0)
+TBaseSet1 ==
+  LET full == MaxOps >= 3 IN
+  {p \in
+    {TP(G1("L", "A", fo, "B", to, TLCig(k), FALSE, 0), sq, id, path) :
+       fo \in Ori, to \in Ori, k \in 0..1, sq \in BOOLEAN, id \in {"", "l1"}, path \in {"", "g", "s"}}
+    \cup {TP(G1("L", "A", fo, "A", to, TLCig(k), FALSE, 0), sq, "l1", "") : fo \in Ori, to \in Ori, k \in 0..1, sq \in BOOLEAN}
+    \cup {TP(G1("C", "A", fo, "B", to, TCOv(k), FALSE, pos), sq, "c1", "") :
+            fo \in Ori, to \in Ori, k \in 0..1, sq \in BOOLEAN, pos \in 0..1} :
+    \* quick tier: CIGAR and sequence/LN ride along with the orientation pair
+    full \/ LET n == TOriIdx(p.x.fo, p.x.too) IN
+            /\ p.x.ov \in {TLCig(n), TCOv(n)}
+            /\ p.seqA = (p.x.fo = "+")
+            /\ (p.id = "" => p.path = "")
+            /\ (p.x.t = "C" => p.x.pos = n % 2)}
+T1Cases(dummy) ==
+  {[k |-> "T", ver |-> "gfa1", lf |-> 0, lt |-> 0, x |-> [p |-> p, h |-> h], text |-> THistText(p, h), lines |-> <<>>] :
+     <<p, h>> \in {t \in TBaseSet1 \X THists : THistOK(t[1], t[2])}}
+
+\* GFA2 histories: the E line of a link A-B in one of its four forms, optionally an O path over it
+UName(p, n) == IF n = "A" THEN p.nA ELSE n
+ULenOf(p, n) == IF n = "A" THEN p.la ELSE p.lb
+UG(p) == [p.g EXCEPT !.s1 = UName(p, @), !.s2 = UName(p, @)]
+UELine(p) == ELine(UG(p), p.id) \o (IF p.tag THEN <<"xx:i:5">> ELSE <<>>)
+UOLine(p) ==
+  LET l == EdgeToLink(p.g)
+      a == IF p.sg = "+" THEN UName(p, l.from) \o l.fo ELSE UName(p, l.to) \o Inv(l.too)
+      b == IF p.sg = "+" THEN UName(p, l.to) \o l.too ELSE UName(p, l.from) \o Inv(l.fo) IN
+  <<"O", "p", IF p.path = "x" THEN a \o " " \o p.id \o p.sg \o " " \o b ELSE a \o " " \o b>>
+UDoc(p) == <<S2Line(p.nA, p.la, FALSE), S2Line("B", p.lb, FALSE), UELine(p)>>
+           \o (IF p.path # "" THEN <<UOLine(p)>> ELSE <<>>)
+UFits(p) == /\ ValidE(p.g, ULenOf(p, p.g.s1), ULenOf(p, p.g.s2)) /\ Consistent(p.g) /\ ClassOf(p.g) = "L"
+UApply(p, e) ==
+  CASE e \in {"A3", "A6"} ->
+         LET n == IF e = "A3" THEN 3 ELSE 6 IN
+         [ok |-> n # p.la, p |-> [p EXCEPT !.la = n], cmd |-> <<"slen", p.nA, ToString(n)>>]
+    [] e \in {"B3", "B6"} ->
+         LET n == IF e = "B3" THEN 3 ELSE 6 IN
+         [ok |-> n # p.lb, p |-> [p EXCEPT !.lb = n], cmd |-> <<"slen", "B", ToString(n)>>]
+    [] e = "ov" ->
+         [ok |-> Reverse(p.g.al) # p.g.al, p |-> [p EXCEPT !.g.al = Reverse(@)],
+          cmd |-> <<"aln", p.id, CigText(Reverse(p.g.al))>>]
+    [] e = "tag" -> [ok |-> ~p.tag, p |-> [p EXCEPT !.tag = TRUE], cmd |-> <<"tag", p.id, "xx:i:5">>]
+    [] e = "ren" -> [ok |-> p.nA = "A", p |-> [p EXCEPT !.nA = "Z"], cmd |-> <<"rename", "A", "Z">>]
+    [] e = "readd" ->
+         LET q == [p EXCEPT !.g = F2(@)] IN
+         [ok |-> p.path = "", p |-> q, cmd |-> <<"readd", p.id, Join(UELine(q), "|")>>]
+    [] e = "readdP" ->
+         LET q == [p EXCEPT !.path = IF @ = "x" THEN "i" ELSE "x"] IN
+         [ok |-> p.path # "", p |-> q, cmd |-> <<"readd", "p", Join(UOLine(q), "|")>>]
+    [] OTHER -> [ok |-> FALSE, p |-> p, cmd |-> <<>>]
+RECURSIVE UHistOK(_, _)
+UHistOK(p, h) == UFits(p) /\ (h = <<>> \/ (UApply(p, Head(h)).ok /\ UHistOK(UApply(p, Head(h)).p, Tail(h))))
+RECURSIVE UHistText(_, _)
+UHistText(p, h) ==
+  IF h = <<>> THEN DocText(UDoc(p))
+  ELSE LET r == UApply(p, Head(h)) IN
+       DocText(UDoc(p)) \o "@" \o Join(r.cmd, "~") \o "@" \o UHistText(r.p, Tail(h))
+RECURSIVE UStages(_, _)
+UStages(p, h) == IF h = <<>> THEN <<p>> ELSE <<p>> \o UStages(UApply(p, Head(h)).p, Tail(h))
+UBaseSet ==
+  LET full == MaxOps >= 3 IN
+  {[la |-> 5, lb |-> 4, nA |-> "A", id |-> "e1", tag |-> FALSE, path |-> path,
+    g |-> HForm(LinkToEdge(G1("L", "A", fo, "B", to, TLCig(k), FALSE, 0), 5, 4), f),
+    sg |-> IF f \in {1, 2} THEN "+" ELSE "-"] :
+   <<fo, to, k, f, path>> \in
+     {t \in Ori \X Ori \X (0..1) \X (1..4) \X {"", "x", "i"} :
+        full \/ (t[3] = TOriIdx(t[1], t[2]) % 2 /\ t[4] = TOriIdx(t[1], t[2]) + 1)}}
+T2Cases(dummy) ==
+  {[k |-> "T", ver |-> "gfa2", lf |-> 0, lt |-> 0, x |-> [p |-> p, h |-> h], text |-> UHistText(p, h), lines |-> <<>>] :
+     <<p, h>> \in {t \in UBaseSet \X THists : UHistOK(t[1], t[2])}}
+
+-----------------------------------------------------------------------------
 (* fixed catalogue: headers, tags, records without counterpart, traces,
    identifiers that look like integers (fresh edge identifiers) *)
 XDocs == <<
@@ -271,7 +467,15 @@ XDocs == <<
   [ver |-> "gfa1", lines |-> <<
      <<"S", "A", "ACGT">>, <<"S", "B", "ACGTA">>, <<"S", "3", "ACG">>,
      <<"L", "A", "+", "B", "+", "2M", "ID:Z:2">>, <<"L", "B", "+", "3", "-", "1M1D1M">>,
-     <<"L", "3", "+", "A", "+", "1M">> >>]
+     <<"L", "3", "+", "A", "+", "1M">> >>],
+  \* an O path through an edge that is not a dovetail has no GFA1 counterpart; the GFA1 document
+  \* it comes from when a link covers a whole segment
+  [ver |-> "gfa2", lines |-> <<
+     <<"S", "A", "5", "*">>, <<"S", "B", "3", "*">>, <<"E", "l1", "A+", "B+", "3", "5$", "0", "3$", "2M1I">>,
+     <<"O", "p", "A+ l1+ B+">> >>],
+  [ver |-> "gfa1", lines |-> <<
+     <<"S", "A", "*", "LN:i:5">>, <<"S", "B", "*", "LN:i:3">>, <<"L", "A", "+", "B", "+", "2M1I", "ID:Z:l1">>,
+     <<"P", "p", "A+,B+", "2M1I">> >>]
 >>
 XCases(dummy) == {[k |-> "X", ver |-> XDocs[i].ver, lf |-> 0, lt |-> 0, x |-> i, lines |-> XDocs[i].lines] : i \in DOMAIN XDocs}
 
@@ -283,13 +487,14 @@ Init == \/ "L" \in Kinds /\ c \in LCases(0)
         \/ "O" \in Kinds /\ c \in OCases(0)
         \/ "X" \in Kinds /\ c \in XCases(0)
         \/ "H" \in Kinds /\ (c \in H1Cases(0) \/ c \in H2Cases(0))
+        \/ "N" \in Kinds /\ c \in NCases(0)
+        \/ "T" \in Kinds /\ (c \in T1Cases(0) \/ c \in T2Cases(0))
 Next == FALSE /\ UNCHANGED c
 Spec == Init /\ [][Next]_c
 
 \* one printed line per case: fields joined with "|", lines with ";" (neither
 \* occurs inside a field of any enumerated document)
-DocText(ls) == Join([i \in DOMAIN ls |-> Join(ls[i], "|")], ";")
-Emit == PrintT(<<"CASE", c.k, c.ver, DocText(c.lines)>>)
+Emit == PrintT(<<"CASE", c.k, c.ver, IF c.k = "T" THEN c.text ELSE DocText(c.lines)>>)
 
 -----------------------------------------------------------------------------
 (* laws of the specification *)
@@ -380,5 +585,56 @@ LawReading == c.k = "H" =>
         /\ EdgeReadOvs(g, Inv(own), sa, sb) = {Complement(c.x.cg)}
         /\ EdgeReadOvs(g, "", sa, sb) = {c.x.cg, Complement(c.x.cg)}
 
-Laws == LawGfa1 /\ LawGfa2 /\ LawForms /\ LawPaths /\ LawReading
+\* nested groups: the lines of `inner` concatenated are its walk; `outer` and
+\* `top` expand to the walk over the whole chain (backwards: every item inverted,
+\* in the opposite order); every step of the expansion is carried by the edge
+\* listed for it, traversed with the sign listed
+LawNested == c.k = "N" =>
+  LET sh == NChain(c.x.vi)
+      inner == NItems(sh, c.x.r, c.x.fv, c.x.i, c.x.j, c.x.expl)
+      outer == NOuter(sh, c.x.r, c.x.fv, c.x.i, c.x.j, c.x.expl, c.x.rev)
+      groups == [n \in {"inner", "outer"} |-> IF n = "inner" THEN inner ELSE outer]
+      full == NItems(sh, c.x.r, c.x.fv, 1, 4, c.x.expl)
+      want == IF c.x.rev THEN RevInv(full) ELSE full
+      exp == ExpandItems(outer, groups, MaxNesting)
+      IsSeg(it) == it.id \in {"A", "B", "C", "D"}
+      segs == OrderedToPath(exp, IsSeg) IN
+  /\ FlatSeq(NPieces(inner, c.x.cuts)) = inner
+  /\ exp = want
+  /\ ExpandItems(<<It("outer", "+")>>, groups, MaxNesting) = want
+  /\ ExpandItems(<<It("outer", "-")>>, groups, MaxNesting) = RevInv(want)
+  /\ RevInv(RevInv(want)) = want
+  /\ Len(segs) = 4
+  /\ \A k \in 1..3 :
+        LET e == IF c.x.rev THEN 4 - k ELSE k
+            sg == IF c.x.rev THEN Inv(Stored2(sh, e, c.x.r, c.x.fv).s) ELSE Stored2(sh, e, c.x.r, c.x.fv).s IN
+        /\ EdgeCarries(Stored2(sh, e, c.x.r, c.x.fv).g, Ors(segs[k].id, segs[k].o), Ors(segs[k + 1].id, segs[k + 1].o), sg)
+        /\ (c.x.expl => exp[2 * k] = It("l" \o ToString(e), sg))
+
+\* histories: the document of every stage is inside the quantifier, its edge
+\* converts to a valid E line for the lengths of that stage and comes back
+LawHist == (c.k = "T" /\ c.ver = "gfa1") =>
+  \A n \in DOMAIN TStages(c.x.p, c.x.h) :
+    LET p == TStages(c.x.p, c.x.h)[n]
+        lf == TLenOf(p, p.x.from)
+        lt == TLenOf(p, p.x.to) IN
+    /\ TFits(p)
+    /\ \A g \in Gfa1ToEdgeSet(p.x, lf, lt) :
+          /\ ValidE(g, lf, lt) /\ Consistent(g)
+          /\ \A y \in EdgeToGfa1Set(g, lf, lt) : Equiv1(p.x, y, LAMBDA m : TLenOf(p, m))
+
+LawHist2 == (c.k = "T" /\ c.ver = "gfa2") =>
+  \A n \in DOMAIN UStages(c.x.p, c.x.h) :
+    LET p == UStages(c.x.p, c.x.h)[n]
+        l1 == ULenOf(p, p.g.s1)
+        l2 == ULenOf(p, p.g.s2) IN
+    /\ UFits(p)
+    /\ \A y \in EdgeToGfa1Set(p.g, l1, l2) :
+          /\ Gfa1Fits(y, ULenOf(p, y.from), ULenOf(p, y.to))
+          /\ \E h \in Gfa1ToEdgeSet(y, ULenOf(p, y.from), ULenOf(p, y.to)) : EquivE(p.g, h)
+    /\ (p.path # "" => LET l == EdgeToLink(p.g) IN
+                        EdgeCarries(p.g, IF p.sg = "+" THEN Ors(l.from, l.fo) ELSE Ors(l.to, Inv(l.too)),
+                                    IF p.sg = "+" THEN Ors(l.to, l.too) ELSE Ors(l.from, Inv(l.fo)), p.sg))
+
+Laws == LawGfa1 /\ LawGfa2 /\ LawForms /\ LawPaths /\ LawReading /\ LawNested /\ LawHist /\ LawHist2
 =============================================================================
